@@ -76,6 +76,7 @@ def interpolate_faces_to_vertices(
         else:
             area = face_area(mesh, persistent=False)
         total_area = np.zeros(len(mesh.vertices))
+        vattr.clear() # values are accumulated below: start from an empty output attribute
         for v in mesh.id_vertices:
             total_area[v] = 0.
             for f in mesh.connectivity.vertex_to_faces(v):
@@ -90,6 +91,7 @@ def interpolate_faces_to_vertices(
         else:
             angles = corner_angles(mesh, persistent=False)
         defects = np.zeros(len(mesh.vertices))
+        vattr.clear() # values are accumulated below: start from an empty output attribute
         for c, v in enumerate(mesh.face_corners):
             f = mesh.face_corners.adj(c)
             vattr[v] = vattr[v] + fattr[f] * angles[c]
@@ -145,7 +147,8 @@ def average_corners_to_vertices(
     """
     weight = weight.lower()
     check_argument("weight", weight, str, {'uniform', 'angle', 'sum'})
-    
+    vattr.clear() # values are accumulated below: start from an empty output attribute
+
     if weight == "uniform":
         count = np.zeros(len(mesh.vertices))
         for c,v in enumerate(mesh.face_corners):
@@ -222,6 +225,7 @@ def average_corners_to_faces(
     """
     weight = weight.lower()
     check_argument("weight", weight, str, ['uniform', 'angle', 'sum'])
+    fattr.clear() # values are accumulated below: start from an empty output attribute
 
     if weight == "uniform":
         for F in mesh.id_faces:
